@@ -259,10 +259,19 @@ static int copy_dir(const char *src, const char *dst) {
   if (mkdir(dst, 0755) && errno != EEXIST) return -1;
   DIR *d = opendir(src); if (!d) return -1;
   struct dirent *e; int rc = 0;
+  // names that are hard links of one file in the source stay hard links of one file in the copy (the replica links a
+  // snapshot to its head before it renames the metadata; code that recognises that leftover by inode must still do so)
+  enum { MAXL = 256 }; static ino_t seen_ino[MAXL]; static char seen_path[MAXL][PATH_MAX]; int nseen = 0;
   while ((e = readdir(d))) {
     if (!strcmp(e->d_name, ".") || !strcmp(e->d_name, "..")) continue;
     char a[PATH_MAX], b[PATH_MAX]; snprintf(a, sizeof a, "%s/%s", src, e->d_name); snprintf(b, sizeof b, "%s/%s", dst, e->d_name);
     size_t L = strlen(e->d_name); int img = L > 4 && !strcmp(e->d_name + L - 4, ".img");
+    struct stat st; int linked = 0;
+    if (!stat(a, &st) && S_ISREG(st.st_mode) && st.st_nlink > 1) {
+      for (int k = 0; k < nseen; k++) if (seen_ino[k] == st.st_ino) { unlink(b); if (!link(seen_path[k], b)) linked = 1; break; }
+      if (!linked && nseen < MAXL) { seen_ino[nseen] = st.st_ino; snprintf(seen_path[nseen], PATH_MAX, "%s", b); nseen++; }
+    }
+    if (linked) continue;
     if (copy_file(a, b, img)) { rc = -1; fprintf(stderr, "fstrace: copy %s: %s\n", a, strerror(errno)); }
   }
   closedir(d); return rc;
